@@ -6,6 +6,7 @@ from targets/python.py, numpy.py, cpp.py on every run).  Bit-identity of the *ex
 decided by differential runs (fav/props/c05.py), not here.
 -/
 import FAVerif.Lemmas.Printer
+import FAVerif.Models.ConstName
 import FAVerif.Generated.C05Tables
 import FAVerif.Generated.C05Rows
 
@@ -26,10 +27,10 @@ FULL statement (false of the code as written):  ∀ r ∈ <target>Kinds, rowOK .
 The rows in `exempt` are excluded, each with a negation witness below that is replayed on the
 real printers by fav/props/c05.py. -/
 
-/-- every Python row outside `exempt .python = [remainder, sign]` denotes its kind -/
+/-- every Python row outside `exempt .python = [sign]` denotes its kind (`remainder` is full strength since /repo 3525211) -/
 theorem templates_python : ∀ r ∈ pythonKinds, r.1 ∈ exempt .python ∨ rowOK .python r.1 r.2 = true := by decide +kernel
 
-/-- every NumPy row outside `exempt .numpy = [remainder, item]` denotes its kind -/
+/-- every NumPy row outside `exempt .numpy = [item]` denotes its kind (`remainder` is full strength since /repo 3525211) -/
 theorem templates_numpy : ∀ r ∈ numpyKinds, r.1 ∈ exempt .numpy ∨ rowOK .numpy r.1 r.2 = true := by decide +kernel
 
 /-- every C++ row outside `exempt .cpp = [sign]` denotes its kind (`floor` is full strength since /repo 1e6d6d5) -/
@@ -38,9 +39,10 @@ theorem templates_cpp : ∀ r ∈ cppKinds, r.1 ∈ exempt .cpp ∨ rowOK .cpp r
 /-- `numpy item = "{0}[{1}]"` has the right shape; only guardedness of hole 0 is missing -/
 theorem templates_numpy_item_shape : rowShapeOK .numpy "item" (.tmpl "{0}[{1}]") = true := by decide
 
-/-- Negation witnesses for the exempt rows (literal rows of the pinned tree): `%%` is not an operator; the
-`sign` templates have bare holes.  `std::floot` (fixed in /repo by 1e6d6d5) is kept as a regression witness:
-the old row is rejected, the repaired row is accepted (`templates_reject_examples`). -/
+/-- Negation witnesses for the exempt rows (literal rows of the pinned tree): the `sign` templates have bare
+holes.  Regression witnesses for repaired rows: `std::floot` (fixed in /repo by 1e6d6d5) and python/numpy
+`"({0}) %% ({1})"` (`%%` is not an operator; fixed by 3525211): the old rows are rejected, the repaired rows are
+accepted (`templates_reject_examples`). -/
 theorem templates_witness :
     rowOK .python "remainder" (.tmpl "({0}) %% ({1})") = false ∧
     rowOK .numpy "remainder" (.tmpl "({0}) %% ({1})") = false ∧
@@ -54,7 +56,9 @@ theorem templates_witness :
 theorem templates_reject_examples :
     rowOK .numpy "subtract" (.tmpl "({1}) - ({0})") = false ∧
     rowOK .python "lt" (.tmpl "({0}) <= ({1})") = false ∧
-    rowOK .cpp "floor" (.tmpl "std::floor({0})") = true := by decide
+    rowOK .cpp "floor" (.tmpl "std::floor({0})") = true ∧
+    rowOK .python "remainder" (.tmpl "({0}) % ({1})") = true ∧
+    rowOK .numpy "remainder" (.tmpl "({0}) % ({1})") = true := by decide
 
 /-- named constants: every row of `constant_to_target` is the trusted text -/
 theorem consts_all :
@@ -202,6 +206,44 @@ theorem auto_names_witness :
     (makeRef witnessNodes 9 {} 3).2.toOption = some "constant_fx3fb999999999999a" ∧
     (makeRef witnessNodes 9 {} 7).2.toOption = some "add_x_y_z" ∧
     (makeRef witnessNodes 9 {} 8).2.toOption = some "add_x_y_z" := by decide
+
+/-! ## the value part of an auto-generated constant name (`toidentifier`, Models/ConstName.lean)
+
+FULL statement wanted by `no_alias` (false of the code as written): `ident` is injective — two constants
+with different values (of one `like` type) never get the same name `constant_<ident>`.  What holds and
+what does not: -/
+
+open FAVerif.ConstName in
+/-- the name of a complex constant is `"c"` followed by the names of BOTH parts; constants with the same
+real part and different imaginary parts (1j / 2j, 1+2j / 1+3j, a value and its conjugate), or the same
+imaginary part and different real parts, get different names (samples; the injectivity of the float part is
+decided by search, see notes) -/
+theorem const_name_complex_examples :
+    ident (.pycomplex 0 0x3ff0000000000000) = .ok "cf0f1" ∧
+    ident (.pycomplex 0 0x4000000000000000) = .ok "cf0f2" ∧
+    ident (.pycomplex 0x3ff0000000000000 0x4000000000000000) = .ok "cf1f2" ∧
+    ident (.pycomplex 0x3ff0000000000000 0x4008000000000000) = .ok "cf1f3" ∧
+    ident (.pycomplex 0x3ff0000000000000 0xc000000000000000) = .ok "cf1fneg2" ∧
+    ident (.pycomplex 0x4000000000000000 0x4000000000000000) = .ok "cf2f2" ∧
+    ident (.npcomplex 32 0x3f800000 0x40000000) = .ok "cf1f2" ∧
+    ident (.pycomplex 0x3fb999999999999a 0x3fc999999999999a) = .ok "cfx3fb999999999999afx3fc999999999999a" := by decide
+
+open FAVerif.ConstName in
+/-- ints: the name is injective in the value (for every pair of ints) -/
+theorem const_name_int_inj (a b : Int) (h : identInt a = identInt b) : a = b :=
+  FAVerif.ConstName.identInt_inj a b h
+
+open FAVerif.ConstName in
+/-- Negation witnesses of injectivity (replayed on the real code, known findings):
+(1) the sign of zero is lost: `0.0` and `-0.0` are both `f0`, `1+0j` and its conjugate `1-0j` both `cf1f0`
+    (since /repo ab6dc38 these are distinct expressions, so they now share a variable);
+(2) numpy scalars: the bytes of a non-integral value are printed in hex WITHOUT zero padding, so the
+    float32 patterns 0x3f011000 and 0x3f110000 are both `f0x3f1100`. -/
+theorem const_name_witness :
+    ident (.pyfloat 0) = .ok "f0" ∧ ident (.pyfloat 0x8000000000000000) = .ok "f0" ∧
+    ident (.pycomplex 0x3ff0000000000000 0) = .ok "cf1f0" ∧
+    ident (.pycomplex 0x3ff0000000000000 0x8000000000000000) = .ok "cf1f0" ∧
+    ident (.npfloat 32 0x3f011000) = .ok "f0x3f1100" ∧ ident (.npfloat 32 0x3f110000) = .ok "f0x3f1100" := by decide
 
 /-! ## non-vacuity: a concrete DAG with sharing meets every hypothesis -/
 
